@@ -7,23 +7,28 @@ From Verif Require Import Base Cal Param ParamCache.
 Import ListNotations.
 Open Scope Z_scope.
 
-(** What the reference keeps of a system. *)
-Definition erase (s : sys) : option tree * tree :=
-  (match s_base s with Some (_, b) => Some b | None => None end, s_root s).
-
-(** The invariant: identities are fresh, and when the cache is stamped with the identity
-    of the current tree, every entry is the graph of [at_instant] of the current tree. *)
-Definition cache_ok (s : sys) : Prop :=
-  (s_rid s < s_next s)%nat /\
-  (forall k, s_cached s = Some k -> (k < s_next s)%nat) /\
+(** The invariant of one system's cache, [next] being the next fresh identity of the
+    world: identities in use are older than [next], and when the cache is stamped with
+    the identity of the system's current tree, every entry is the graph of [at_instant]
+    of that tree. *)
+Definition cache_ok (next : nat) (s : sys) : Prop :=
+  (s_rid s < next)%nat /\
+  (forall k, s_cached s = Some k -> (k < next)%nat) /\
   (s_cached s = Some (s_rid s) ->
    forall i ov, assoc i (s_cache s) = Some ov -> ov = at_instant (s_root s) i).
 
+Definition world_ok (w : world) : Prop := Forall (cache_ok (w_next w)) (w_sys w).
 
-(** The state reached by a sequence. *)
-Definition exec (m : mode) (s : sys) (ops : list op) : sys :=
-  fold_left (fun s o => fst (step m s o)) ops s.
+(** two worlds that differ by their caches only *)
+Definition same_trees (s s' : sys) : Prop :=
+  s_base s = s_base s' /\ s_root s = s_root s' /\ s_rid s = s_rid s'.
 
+Definition same_world (w w' : world) : Prop :=
+  w_next w = w_next w' /\ Forall2 same_trees (w_sys w) (w_sys w').
+
+(** The world reached by a sequence. *)
+Definition wexec (m : mode) (w : world) (ops : list (nat * op)) : world :=
+  fold_left (fun w o => fst (wstep m w o)) ops w.
 
 Fixpoint wf_tree (t : tree) : Prop :=
   match t with
@@ -35,11 +40,9 @@ Fixpoint wf_tree (t : tree) : Prop :=
   end.
 
 
-Definition wf_op (o : op) : Prop := match o with Load t => wf_tree t | _ => True end.
+Definition wf_op (o : nat * op) : Prop := match snd o with Load t => wf_tree t | _ => True end.
 
-Definition wf_sys (s : sys) : Prop :=
-  wf_tree (s_root s) /\ match s_base s with Some (_, b) => wf_tree b | None => True end.
-
+Definition wf_world (w : world) : Prop := Forall (fun s => wf_tree (s_root s)) (w_sys w).
 
 Definition step_name (j : nat) (s : vstep) : option string :=
   match s with SField n => Some n | SKeys ks => nth_error ks j end.
